@@ -11,7 +11,7 @@ import schemacomp_common as sc
 PROBES = [sc.PROBE]
 
 MANIFEST = dict(
-    text='Schemas in which one repeating-group count field has two definitions. (a) SchemaComp.tla, action ReuseCountField: a second message reuses a count field with other members or another nested group (TLC enumerates the small universe exhaustively). (b) MC_SchemaHash.tla: the compiler\'s structural hash (group_hash = rothash folded over the ascending member numbers, then over the nested groups\' hashes) is transcribed in TLA+ (Bitwise, 2x16-bit halves); because rothash(r, v) = Lin(r) ^ v ^ K the fourth member d of a pair of definitions p+{a,b} / p+{c,d} that collide is computed, TLC verifies the collision on the full transcription and builds schemas around every usable solution in four shapes (pair, order of definition swapped, common suffix member, colliding definitions as nested groups of otherwise identical parents). TLC proves DistinctDefsDistinctTraits and OwnTraits for the ideal group table (identity = the definition) on all of them and exhibits the violation for the deviation hash_identity. Every chosen schema goes through the real f8c and g++; TLC judges the metadata of each group occurrence against its own definition (T_SchemaComp) and round trips of both messages - built, encoded (wire order and group structure by the C02 monitor), decoded and re-encoded with their own members (T_Codec).',
+    text='Schemas in which one repeating-group count field has two definitions. (a) SchemaComp.tla, action ReuseCountField: a second message reuses a count field with other members or another nested group (TLC enumerates the small universe exhaustively). (b) MC_SchemaHash.tla: the compiler\'s structural hash (group_hash = rothash folded over the ascending member numbers, then over the nested groups\' hashes) is transcribed in TLA+ (Bitwise, 2x16-bit halves); because rothash(r, v) = Lin(r) ^ v ^ K the fourth member d of a pair of definitions p+{a,b} / p+{c,d} that collide is computed, TLC verifies the collision on the full transcription and builds schemas around every usable solution in seven shapes (pair, order of definition swapped, common suffix member, colliding definitions as nested groups of otherwise identical parents, three definitions with one hash, and a colliding pair plus a third definition hashing to their hash + 1 registered before or after the pair). TLC proves DistinctDefsDistinctTraits and OwnTraits for the ideal group table (identity = the definition) on all of them and for the open-addressed table the code uses (hash_probe), and exhibits the violation for the deviations hash_identity and hash_probe_once. Every chosen schema goes through the real f8c and g++; TLC judges the metadata of each group occurrence against its own definition (T_SchemaComp) and round trips of both messages - built, encoded (wire order and group structure by the C02 monitor), decoded and re-encoded with their own members (T_Codec).',
     note='A rejection is attributed by the metadata monitor from local facts: the group carries the traits of another definition of the same count field and the transcribed hashes of the two definitions are equal (hash_collision) or not (different_hash: unexplained). Same reading of the schema format as C13. Quick tier reuses cached TLC results of an unchanged design spec.',
     tech='TLA+ transcription of the structural hash; collisions solved from its GF(2)-linear form and verified by TLC; TLC-built schemas compiled by the real f8c; TLC trace validation of metadata and codec round trips',
     ref='5.4, 6 C14')
@@ -30,6 +30,9 @@ def models(ctx):
     sc.model(ctx, "MC_SchemaComp.tla", "MC_SchemaComp_witness_NoTwoDefinitions.cfg", [], expect="NoTwoDefinitions")
     h = sc.model(ctx, "MC_SchemaHash.tla", "MC_SchemaHash.cfg" if q else "MC_SchemaHash_thorough.cfg", HASH_PROPS)
     sc.model(ctx, "MC_SchemaHash.tla", "MC_SchemaHash_dev.cfg", [], expect="DistinctDefsDistinctTraits")
+    # the table the code has had since the repair (open addressing on the hash) keeps C14; looking only one key further does not
+    sc.model(ctx, "MC_SchemaHash.tla", "MC_SchemaHash_probe.cfg", ["SolvedCollides", "OwnTraits with hash_probe", "DistinctDefsDistinctTraits with hash_probe"])
+    sc.model(ctx, "MC_SchemaHash.tla", "MC_SchemaHash_dev_once.cfg", [], expect="DistinctDefsDistinctTraits")
     sc.model(ctx, "MC_SchemaHash.tla", "MC_SchemaHash_witness.cfg", [], expect="NoUsable")
     ctx.exhaustive = True
     if not g["skel"]:
@@ -58,7 +61,7 @@ def run(ctx):
     reuse = [l for l in g["leaves"] if sc.features(l) & REUSE and not sc.features(l) & OTHER]
     if len(reuse) < 20 or len(h["leaves"]) < 20:
         raise core.Infra("too few two-definition schemas exported (%d reuse, %d collisions)" % (len(reuse), len(h["leaves"])))
-    n_r, n_h = (5, 5) if q else (60, 70)
+    n_r, n_h = (5, 7) if q else (60, 90)
     fam = [("reuse", l) for l in sc.choose(rng, reuse, n_r)]
     fam += [("collision", l) for l in sc.choose(rng, h["leaves"], n_h)]
     opts = dict(per_type_random=4 if q else 10, n_deep=4 if q else 10, max_count=3, keep_objects=q, parallel=8, only={"UA", "UB", "UC"})
@@ -73,5 +76,5 @@ def run(ctx):
         ctx.sample({"schema": s, "metadata_events": [e for e in ex[1:] if e["e"] in ("Compile", "MMsg", "MGroup") and len(e.get("mt", "UA")) > 1]})
     ctx.trusted = ["TLC", "XML renderer in lib/schemacomp_common.py", "lib/schema.py (XML reader)", "probe_meta / probe_codec (move data only)",
                    "g++", "tokenizer and SHA-256 digest in lib/codec_common.py"]
-    ctx.assumptions = ["the two definitions live in two messages of one schema; colliding definitions have 2-4 plain members "
+    ctx.assumptions = ["the two or three definitions live in different messages of one schema; colliding definitions have 2-4 plain members "
                        "(field numbers below 65536) or are nested groups of otherwise identical parents"]
